@@ -7,7 +7,8 @@ import z3
 from kt.kt import Raised, Unsupported, is_sym, to_real
 from kt import models as MD
 
-CURRENT = {'rounding': decimal.ROUND_HALF_EVEN}
+CURRENT = {'rounding': decimal.ROUND_HALF_EVEN, 'prec': 28}
+ADJ_MAX = 25          # Decimal.adjusted() is forked exactly for exponents 16..ADJ_MAX; obligations bound |q| < 10^(ADJ_MAX+1)
 
 
 def zfloor(x):
@@ -45,6 +46,20 @@ class MDecimal:
         n = -exp.as_tuple().exponent
         return MDecimal(round_real(self.real, n, rounding or CURRENT['rounding']))
 
+    def adjusted(self, it, br):
+        """Exponent of the most significant digit.  Exact (forked) from 16 up to ADJ_MAX; below 16 a fresh integer e <= 15 (only
+        ever compared with / added to small constants by the code under analysis: an over-approximation)."""
+        a = zabs(self.real)
+        for e in range(ADJ_MAX, 15, -1):
+            if br.decide(a >= z3.RealVal(10) ** e):
+                if e == ADJ_MAX and br.decide(a >= z3.RealVal(10) ** (e + 1)):
+                    raise Unsupported('magnitude beyond 10^%d' % (ADJ_MAX + 1))
+                return e
+        e = MD.fresh('adj')
+        br.assume(e <= 15)
+        return e
+    adjusted.__needs_br__ = True
+
 
 class MCtx:
     __symbolic__ = True
@@ -62,6 +77,14 @@ class MCtx:
     @rounding.setter
     def rounding(self, v):
         CURRENT['rounding'] = v
+
+    @property
+    def prec(self):
+        return CURRENT['prec']
+
+    @prec.setter
+    def prec(self, v):
+        CURRENT['prec'] = v
 
 
 def m_str(it, br, v=''):
@@ -81,7 +104,42 @@ def m_decimal(it, br, v=0):
 
 
 def m_localcontext(it, br):
+    CURRENT['prec'] = 28
     return MCtx()
+
+
+def m_max(it, br, *args):
+    if len(args) == 1:
+        args = tuple(args[0])
+    if not any(is_sym(a) for a in args):
+        return max(*args)
+    out = args[0]
+    for b in args[1:]:
+        if is_sym(out) and out.sort() == z3.RealSort() or is_sym(b) and b.sort() == z3.RealSort():
+            out, b = to_real(out), to_real(b)
+        out = z3.If(out >= b, out, b)
+    return out
+
+
+def _context_precision(br):
+    """The context precision as a concrete int (a symbolic one, e.g. max(28, adjusted + digits + 2), is forked over 28..80)."""
+    p = CURRENT['prec']
+    if not is_sym(p):
+        return int(p)
+    for k in range(28, 81):
+        if br.decide(p == k):
+            return k
+    raise Unsupported('context precision outside 28..80')
+
+
+def _quantized(br, q, k, mode):
+    """round(Decimal, k) / quantize: InvalidOperation when the coefficient of the result needs more digits than the context precision."""
+    res = round_real(q, k, mode)
+    prec = _context_precision(br)
+    sc = z3.RealVal(10) ** k if k >= 0 else 1 / (z3.RealVal(10) ** (-k))
+    if br.decide(zabs(res) * sc >= z3.RealVal(10) ** prec):
+        raise Raised('InvalidOperation')
+    return MDecimal(res)
 
 
 def round_real(q, n, mode):
@@ -107,9 +165,9 @@ def m_round(it, br, number, ndigits=None):
         if is_sym(ndigits):
             for k in range(-12, 13):
                 if br.decide(ndigits == k):
-                    return MDecimal(round_real(number.real, k, mode))
+                    return _quantized(br, number.real, k, mode)
             raise Unsupported('digit count outside -12..12')
-        return MDecimal(round_real(number.real, int(ndigits), mode))
+        return _quantized(br, number.real, int(ndigits), mode)
     if is_sym(number):
         raise Unsupported('round() of a float (binary rounding is not modelled)')
     return round(number, ndigits)
@@ -145,4 +203,4 @@ def m_abs(it, br, v):
 
 MATH_MODELS = dict(MD.DIGIT_MODELS)
 MATH_MODELS.update({str: m_str, decimal.Decimal: m_decimal, decimal.localcontext: m_localcontext, round: m_round, float: m_float,
-                    math.trunc: m_trunc, math.ceil: m_ceil, math.floor: m_floor, abs: m_abs})
+                    math.trunc: m_trunc, math.ceil: m_ceil, math.floor: m_floor, abs: m_abs, max: m_max})
